@@ -41,16 +41,34 @@ Ltac cmp_step :=
     first [ rewrite (proj2 (Nat.eqb_eq a b)) by lia | rewrite (proj2 (Nat.eqb_neq a b)) by lia
           | destruct (Nat.eqb_spec a b) ]
   end.
-Ltac min_simp := repeat first [ rewrite Nat.min_l by lia | rewrite Nat.min_r by lia ].
+Ltac min_simp :=
+  repeat match goal with
+  | |- context [Nat.min ?a ?b] =>
+    first [ rewrite (Nat.min_l a b) by lia | rewrite (Nat.min_r a b) by lia ]
+  end.
+Ltac min_simp_in H :=
+  repeat match type of H with
+  | context [Nat.min ?a ?b] =>
+    first [ rewrite (Nat.min_l a b) in H by lia | rewrite (Nat.min_r a b) in H by lia ]
+  end.
+
+(* as list_eq below, with explicit splits of the index range first: [k i] splits on the index i *)
+Ltac list_eq_k k :=
+  apply (nth_ext' _ _ 0%N);
+  [ len_simp; min_simp; lia
+  | let i := fresh "i" in let Hi := fresh "Hi" in
+    intros i Hi; len_simp_in Hi; min_simp_in Hi;
+    repeat (rewrite ?nth_app, ?nth_firstn_if, ?nth_skipn', ?nth_zeros; len_simp; min_simp);
+    k i;
+    repeat cmp_step; try lia; try reflexivity; try (f_equal; lia) ].
 
 (* two byte lists are equal: same length, same bytes (default 0 so that zero fill is transparent) *)
 Ltac list_eq :=
   apply (nth_ext' _ _ 0%N);
-  [ len_simp; lia
+  [ len_simp; min_simp; lia
   | let i := fresh "i" in let Hi := fresh "Hi" in
-    intros i Hi; len_simp_in Hi;
-    repeat (rewrite ?nth_app, ?nth_firstn_if, ?nth_skipn', ?nth_zeros; len_simp);
-    min_simp;
+    intros i Hi; len_simp_in Hi; min_simp_in Hi;
+    repeat (rewrite ?nth_app, ?nth_firstn_if, ?nth_skipn', ?nth_zeros; len_simp; min_simp);
     repeat cmp_step; try lia; try reflexivity; try (f_equal; lia) ].
 
 Lemma wr_sem m i d : i + length d <= length m -> wr m i d = Ok (firstn i m ++ d ++ skipn (i + length d) m).
@@ -198,7 +216,8 @@ Proof.
         * lia.
         * intros Ht. destruct (Hal Ht) as [? [? ?]]. apply aligned_add; assumption.
       + unfold bview, ins; cbn [bused bdata set_used set_data]. rewrite firstn_length, L, Nat.min_l by lia.
-        rewrite (proj2 (Nat.ltb_lt pos (bused b))) by lia. list_eq.
+        rewrite (proj2 (Nat.ltb_lt pos (bused b))) by lia.
+        list_eq_k ltac:(fun i => split_at i pos; [|split_at i (pos + length d)]).
     - rewrite Nat.eqb_refl. cbn [bind].
       destruct (Nat.ltb_spec (bused b) pos) as [Hq|Hq].
       + rewrite wr_sem by (rewrite length_zeros; lia). cbn [bind].
@@ -209,7 +228,8 @@ Proof.
           -- lia.
           -- intros Ht. destruct (Hal Ht) as [? [? ?]]. apply aligned_add; assumption.
         * unfold bview, ins; cbn [bused bdata set_used set_data]. rewrite firstn_length, L, Nat.min_l by lia.
-          rewrite (proj2 (Nat.ltb_ge pos (bused b))) by lia. list_eq.
+          rewrite (proj2 (Nat.ltb_ge pos (bused b))) by lia.
+          list_eq_k ltac:(fun i => split_at i (bused b); [|split_at i pos]).
       + cbn [bind]. split; [unfold keeps; auto|]. cbn [bdata set_used set_data].
         rewrite wr_sem by lia. split.
         * unfold buf_wf; cbn [bused bdata bsize btr set_used set_data]. repeat split.
@@ -217,7 +237,8 @@ Proof.
           -- lia.
           -- intros Ht. destruct (Hal Ht) as [? [? ?]]. apply aligned_add; assumption.
         * unfold bview, ins; cbn [bused bdata set_used set_data]. rewrite firstn_length, L, Nat.min_l by lia.
-          rewrite (proj2 (Nat.ltb_ge pos (bused b))) by lia. list_eq. }
+          rewrite (proj2 (Nat.ltb_ge pos (bused b))) by lia.
+          list_eq_k ltac:(fun i => split_at i (bused b); [|split_at i pos]). }
   destruct (Nat.eqb_spec (btr b) 0) as [Ht|Ht]; cbn [negb andb orb].
   - specialize (Main ltac:(intros; contradiction)).
     destruct (do m1 <- _; _) as [b1| |]; try contradiction. intuition.
@@ -264,13 +285,13 @@ Proof.
     - destruct Hk as [-> Ho]. rewrite Nat.sub_diag. cbn [Nat.eqb bind].
       split; [unfold keeps; auto|]. split.
       + unfold buf_wf; cbn [bused bdata bsize btr set_used set_data]. repeat split; try lia.
-        intros Ht. destruct (Hal Ht). lia.
+        intros Ht. destruct (Hal Ht). rewrite Nat.add_0_r. assumption.
       + unfold bview; cbn [bused bdata set_used set_data]. list_eq.
     - destruct Hk as [-> Ho].
       destruct (Nat.eqb_spec (bused b - len - off) 0) as [Hz|Hz]; cbn [bind].
       + split; [unfold keeps; auto|]. split.
         * unfold buf_wf; cbn [bused bdata bsize btr set_used set_data]. repeat split; try lia.
-          intros Ht. destruct (Hal Ht). lia.
+          intros Ht. destruct (Hal Ht). rewrite Hz, Nat.add_0_r. assumption.
         * unfold bview, cutv; cbn [bused bdata set_used set_data]. list_eq.
       + rewrite mv_sem by lia. cbn [bind].
         split; [unfold keeps; auto|]. split.
@@ -286,26 +307,26 @@ Proof.
     { rewrite (proj2 (Nat.leb_gt _ _)) by lia. reflexivity. }
     rewrite (proj2 (Nat.leb_le _ _)) by lia. cbn [bind andb].
     destruct (Nat.eqb_spec (btr b) 0) as [Ht|Ht]; cbn [negb andb orb].
-    + specialize (Main off). rewrite (proj2 (Nat.eqb_eq len 0) Hn) in Main.
+    + specialize (Main off).
       specialize (Main ltac:(auto) ltac:(intros; contradiction)).
       destruct (do m <- _; _) as [b'| |]; try contradiction. intuition.
     + destruct (aligned (btr b) off) eqn:A1; cbn [negb andb]; [|reflexivity].
       destruct (aligned (btr b) len) eqn:A2; cbn [negb andb]; [|reflexivity].
       apply mod_aligned in A1, A2.
-      specialize (Main off). rewrite (proj2 (Nat.eqb_eq len 0) Hn) in Main.
+      specialize (Main off).
       specialize (Main ltac:(auto) ltac:(auto)).
       destruct (do m <- _; _) as [b'| |]; try contradiction. intuition.
   - destruct (Nat.ltb_spec (bused b - len) off) as [Ho|Ho].
     { rewrite (proj2 (Nat.leb_gt _ _)) by lia. reflexivity. }
     rewrite (proj2 (Nat.leb_le _ _)) by lia. cbn [bind andb].
     destruct (Nat.eqb_spec (btr b) 0) as [Ht|Ht]; cbn [negb andb orb].
-    + specialize (Main (bused b - len)). rewrite (proj2 (Nat.eqb_neq len 0) Hn) in Main.
+    + specialize (Main (bused b - len)).
       specialize (Main ltac:(auto) ltac:(intros; contradiction)).
       destruct (do m <- _; _) as [b'| |]; try contradiction. intuition.
     + destruct (aligned (btr b) off) eqn:A1; cbn [negb andb]; [|reflexivity].
       destruct (aligned (btr b) len) eqn:A2; cbn [negb andb]; [|reflexivity].
       apply mod_aligned in A1, A2.
-      specialize (Main (bused b - len)). rewrite (proj2 (Nat.eqb_neq len 0) Hn) in Main.
+      specialize (Main (bused b - len)).
       specialize (Main ltac:(auto) ltac:(auto)).
       destruct (do m <- _; _) as [b'| |]; try contradiction. intuition.
 Qed.
